@@ -108,12 +108,12 @@ type FEnc struct {
 	pendingLeaks []int
 	factInfo     []factInfo
 	symMu        sync.Mutex
-	prune        bool                // cone-of-influence pruning (off: it dropped needed facts in practice)
+	prune        bool // cone-of-influence pruning (off: it dropped needed facts in practice)
 	pureAssumed  map[string]bool
 	blockPos     map[*ssa.BasicBlock]int    // position in the processing order
 	blockReach   map[*ssa.BasicBlock]string // reach condition at block entry
-	exposed      map[*ssa.Alloc]bool // locals whose address is used as a value somewhere in the function
-	catParts     map[string][]string // concatenation term -> its flattened parts
+	exposed      map[*ssa.Alloc]bool        // locals whose address is used as a value somewhere in the function
+	catParts     map[string][]string        // concatenation term -> its flattened parts
 	catCache     map[string]string
 	rangeGhost   map[*ssa.Range]int // map iteration -> ghost cell holding the set of keys visited so far
 	mergeTarget  *State             // state being built at a join (for merge objects)
@@ -234,7 +234,14 @@ func (e *FEnc) zero(ty types.Type) *Val {
 	case *types.Slice:
 		return &Val{Ty: ty, Sort: s, T: "(mk_slice nil_ref 0 0 0)"}
 	case *types.Array:
-		return &Val{Ty: ty, Sort: s, T: fmt.Sprintf("((as const %s) %s)", s, e.term(e.zero(u.Elem())))}
+		// a named all-zero array (cvc5 accepts (as const ...) only over value literals)
+		z := e.term(e.zero(u.Elem()))
+		nm := "zarr_" + mangle(s)
+		if !e.factDone["zarr:"+nm] {
+			e.factDone["zarr:"+nm] = true
+			e.consts = append(e.consts, fmt.Sprintf("(declare-const %s %s)\n(assert (forall ((i Int)) (! (= (select %s i) %s) :pattern ((select %s i)))))", nm, s, nm, z, nm))
+		}
+		return &Val{Ty: ty, Sort: s, T: nm}
 	case *types.Struct:
 		v := &Val{Ty: ty, Sort: s}
 		v.Fields = make([]*Val, u.NumFields())
@@ -666,6 +673,9 @@ func (e *FEnc) load(st *State, p *Ptr) *Val {
 		nm := "G_" + mangle(p.Global.String())
 		e.d.add("c:"+nm, fmt.Sprintf("(declare-const %s %s)", nm, e.sortOf(ty)))
 		e.typeFacts(nm, ty, 0)
+		if gv, ok := p.Global.Object().(*types.Var); ok {
+			e.globalInitFact(gv, nm)
+		}
 		return e.project(&Val{Ty: ty, Sort: e.sortOf(ty), T: nm}, p.Path)
 	}
 	panic("load")
@@ -1908,4 +1918,43 @@ func (e *FEnc) pathMergedVar(st *State, name string, blk *ssa.BasicBlock, idx in
 		cur = &Val{Ty: cur.Ty, Sort: cur.Sort, T: fmt.Sprintf("(ite %s %s %s)", reach, e.term(v), e.term(cur))}
 	}
 	return cur, true
+}
+
+// globalInitFact: a package-level variable initialised by a call of a pure function on constants
+// (var re = regexp.MustCompile("...")) equals that application (variables are not reassigned: assumption).
+func (e *FEnc) globalInitFact(gv *types.Var, nm string) {
+	if e.factDone["ginit:"+nm] || e.noFacts {
+		return
+	}
+	ic := e.eng.globalInitCall(gv)
+	if ic == nil {
+		return
+	}
+	fn := e.eng.prog.FuncValue(ic.fn)
+	if fn == nil {
+		return
+	}
+	fc := e.eng.contractOf(fn)
+	if fc == nil || !fc.Pure {
+		return
+	}
+	e.factDone["ginit:"+nm] = true
+	var args []*Val
+	for i, a := range ic.args {
+		args = append(args, e.constToVal(a, ic.tys[i]))
+	}
+	key := fn.String()
+	if fn.Signature.Variadic() {
+		key += fmt.Sprintf("_v%d", len(args)-(fn.Signature.Params().Len()-1))
+	}
+	sym, _ := e.pureSym(key, args, fn.Signature.Results().At(0).Type(), 0)
+	var ts []string
+	for _, a := range args {
+		ts = append(ts, e.term(a))
+	}
+	t := sym
+	if len(ts) > 0 {
+		t = "(" + sym + " " + strings.Join(ts, " ") + ")"
+	}
+	e.fact(eq(nm, t))
 }
